@@ -2345,3 +2345,13 @@ M("C02-collapsed-sets-lose-overloads", "C02", F_PN,
 M("C14-unpublished-base-derivation-flags-unassigned", "C14", F_IB,
   "            InterrogateType::Derivation d;\n            d._flags = 0;\n            d._base = base_index;\n            d._upcast = 0;", "            InterrogateType::Derivation d;\n            d._base = base_index;\n            d._upcast = 0;",
   expect="R14.10|InterrogateBuilder::define_struct_type|d._flags|")
+
+# ---- R06.17 (S10-C06: F_signed masked out of CPPSimpleType's identity)
+M("C06-simple-type-identity-ignores-signed", "C06", "src/cppparser/cppSimpleType.cxx",
+  "  return _type == ot->_type && _flags == ot->_flags;", "  return _type == ot->_type &&\n    (_flags & ~F_signed) == (ot->_flags & ~F_signed);",
+  expect="R06.17|CPPSimpleType::is_equal|")
+
+# ---- R11.12 (= R20.13; seed S10-C11)
+M("C11-global-list-gets-the-discarded-index", "C11", F_DBX,
+  "        _global_types.push_back(this_type_index);", "        _global_types.push_back(other_type_index);",
+  expect="R11.12|merge_from|_global_types.push_back")
